@@ -18,11 +18,13 @@ import (
 	"fmt"
 	"io"
 	"net"
+	"os"
 	"reflect"
 	"sort"
 	"strconv"
 	"strings"
 	"sync"
+	"sync/atomic"
 	"testing"
 	"time"
 )
@@ -30,6 +32,9 @@ import (
 var admKafkaVersions = []KafkaVersion{V0_10_1_0, V0_10_2_0, V0_11_0_0, V1_0_0_0, V2_0_0_0, V2_4_0_0}
 
 const admTopic = "t"
+
+var admForeign int64 // requests of foreign clients turned away (not recorded)
+var admCaseSeq int64 // per-process sequence number of cases: every case has its own client id
 
 type admCase struct {
 	Fam    string          `json:"fam"`
@@ -87,9 +92,10 @@ type admCluster struct {
 	rep      *admReporter
 	brokers  map[int32]*MockBroker
 	c        *admCase
-	ctl      int32 // true controller
-	k        int   // admin requests of the current operation seen so far
-	noneLeft int   // metadata answers still to come that name no controller
+	ctl      int32  // true controller
+	k        int    // admin requests of the current operation seen so far
+	noneLeft int    // metadata answers still to come that name no controller
+	clientID string // client id of the admin client of the current case; other clients are turned away
 	own      map[int]int32
 	itemv    map[int]int
 	bfault   map[int32]string
@@ -161,6 +167,14 @@ func (cl *admCluster) close() {
 
 func (cl *admCluster) ev(name string, f kv) { cl.events = append(cl.events, admEvent{name, f}) }
 
+func admLogDirPath(b int) string { return "/data/b" + strconv.Itoa(b) }
+func admLogDirOrigin(path string) int {
+	i, err := strconv.Atoi(strings.TrimPrefix(path, "/data/b"))
+	if err != nil {
+		return 99
+	}
+	return i
+}
 func admGroupName(i int) string { return "g" + strconv.Itoa(i) }
 func admGroupIndex(g string) int {
 	i, err := strconv.Atoi(strings.TrimPrefix(g, "g"))
@@ -173,7 +187,11 @@ func admGroupIndex(g string) int {
 func (cl *admCluster) handle(me int32, req *request) encoderWithHeader {
 	cl.mu.Lock()
 	defer cl.mu.Unlock()
-	if cl.c == nil {
+	if cl.c == nil || req.clientID != cl.clientID {
+		// not the client of the case being run: a straggler of an earlier case, or a client of
+		// another process redialling a port the kernel meanwhile gave to this listener. The
+		// connection is closed and nothing is recorded.
+		atomic.AddInt64(&admForeign, 1)
 		return admDropConn{}
 	}
 	api := reflect.TypeOf(req.body).Elem().Name()
@@ -358,6 +376,11 @@ func (cl *admCluster) handleSpread(me int32, api string, req *request) encoderWi
 			}
 		}
 		res = dg
+	case *DescribeLogDirsRequest:
+		// the item is this broker itself; its answer is recognisable by the path
+		items = append(items, int(me))
+		res = &DescribeLogDirsResponse{Version: r.Version, LogDirs: []DescribeLogDirsResponseDirMetadata{
+			{ErrorCode: codeOf(int(me)), Path: admLogDirPath(int(me))}}}
 	default:
 		ans = "conn"
 	}
@@ -473,6 +496,10 @@ func (cl *admCluster) runCase(c *admCase, idx int) (kv, []admEvent, bool) {
 	}
 
 	conf := NewConfig()
+	conf.ClientID = fmt.Sprintf("verif-c19-%d-%d", os.Getpid(), atomic.AddInt64(&admCaseSeq, 1))
+	cl.mu.Lock()
+	cl.clientID = conf.ClientID
+	cl.mu.Unlock()
 	conf.Version = admKafkaVersions[c.Kv]
 	conf.Admin.Retry.Max = c.Max
 	if c.Fam != "ctl" {
@@ -539,6 +566,8 @@ func (cl *admCluster) runCase(c *admCase, idx int) (kv, []admEvent, bool) {
 	}
 	broken := false
 	var out admResult
+	var filedMu sync.Mutex
+	filed := [][]int{} // DescribeLogDirs: [key of the returned map, broker the dir came from]
 	if setup.status != "" || setup.err != nil {
 		// the admin could not be created: recorded as the operation's result
 		out = admResult{status: "setup: " + setup.status + fmt.Sprint(setup.err) + envTrouble}
@@ -552,7 +581,7 @@ func (cl *admCluster) runCase(c *admCase, idx int) (kv, []admEvent, bool) {
 			cl.noneLeft = 1 // the election is still going on when the operation looks the controller up
 		}
 		cl.mu.Unlock()
-		out = admGuard(func() (error, []int) { return admInvoke(admin, c) })
+		out = admGuard(func() (error, []int) { return admInvoke(admin, c, &filedMu, &filed) })
 		if out.status == "hang" {
 			broken = true
 		} else {
@@ -579,11 +608,14 @@ func (cl *admCluster) runCase(c *admCase, idx int) (kv, []admEvent, bool) {
 		rep = []int{}
 	}
 	sort.Ints(rep)
-	evs = append(evs, admEvent{"ret", kv{"cls": cls, "code": code, "text": text, "n": n, "reported": rep}})
+	filedMu.Lock()
+	filedCopy := append([][]int{}, filed...)
+	filedMu.Unlock()
+	evs = append(evs, admEvent{"ret", kv{"cls": cls, "code": code, "text": text, "n": n, "reported": rep, "filed": filedCopy}})
 	return reset, evs, broken
 }
 
-func admInvoke(admin ClusterAdmin, c *admCase) (error, []int) {
+func admInvoke(admin ClusterAdmin, c *admCase, filedMu *sync.Mutex, filed *[][]int) (error, []int) {
 	items := []int{}
 	for _, p := range c.Own {
 		items = append(items, p[0])
@@ -633,6 +665,30 @@ func admInvoke(admin ClusterAdmin, c *admCase) (error, []int) {
 		return err, rep
 	case "DeleteConsumerGroup":
 		return admin.DeleteConsumerGroup(admGroupName(0)), nil
+	case "DescribeLogDirs":
+		var ids []int32
+		for _, i := range items {
+			ids = append(ids, int32(i))
+		}
+		dirs, err := admin.DescribeLogDirs(ids)
+		rep := []int{}
+		var keys []int
+		for k := range dirs {
+			keys = append(keys, int(k))
+		}
+		sort.Ints(keys)
+		filedMu.Lock()
+		for _, k := range keys {
+			for _, d := range dirs[int32(k)] {
+				o := admLogDirOrigin(d.Path)
+				*filed = append(*filed, []int{k, o})
+				if d.ErrorCode != ErrNoError {
+					rep = append(rep, o)
+				}
+			}
+		}
+		filedMu.Unlock()
+		return err, rep
 	}
 	return fmt.Errorf("harness: unknown op %s", c.Op), nil
 }
@@ -650,6 +706,34 @@ func TestVerifAdmin(t *testing.T) {
 			t.Fatalf("bad case %q: %v", line, err)
 		}
 		cases[i] = c
+	}
+
+	// self-test of the brokers' strictness: a client with another client id is turned away and
+	// leaves no event behind
+	{
+		cl, err := newAdmCluster(rep)
+		if err != nil {
+			t.Fatal(err)
+		}
+		cl.mu.Lock()
+		cl.c, cl.clientID = &admCase{Fam: "ctl", Op: "CreateTopic"}, "verif-c19-selftest"
+		cl.mu.Unlock()
+		conf := NewConfig()
+		conf.ClientID = "somebody-else"
+		conf.Metadata.Retry.Max = 0
+		conf.Net.DialTimeout, conf.Net.ReadTimeout = 2*time.Second, 2*time.Second
+		if c, err := NewClient([]string{cl.brokers[0].Addr()}, conf); err == nil {
+			_ = c.Close()
+			t.Fatalf("harness self-test: a foreign client was served")
+		}
+		cl.mu.Lock()
+		n := len(cl.events)
+		cl.mu.Unlock()
+		if n != 0 || atomic.LoadInt64(&admForeign) == 0 {
+			t.Fatalf("harness self-test: foreign client left %d events, turned away %d", n, atomic.LoadInt64(&admForeign))
+		}
+		atomic.StoreInt64(&admForeign, 0)
+		cl.close()
 	}
 
 	workers := vEnvInt("VERIF_ADMIN_WORKERS", 8)
@@ -709,5 +793,5 @@ func TestVerifAdmin(t *testing.T) {
 	}
 	wg.Wait()
 	vWriteJSON(t, "summary.json", kv{"cases": len(cases), "executed": counts, "setup_failures": setupFailures, "setup_texts": setupTexts,
-		"mock_complaints": rep.msgs, "samples": samples})
+		"mock_complaints": rep.msgs, "foreign_requests_turned_away": atomic.LoadInt64(&admForeign), "samples": samples})
 }
